@@ -36,6 +36,18 @@ element of the trace and the invariant is checked AT that element (so it holds w
         pf[item].<key> IS the parent's value (identity / equal immutable) - a dropped or re-derived one is named;
         .footer_fields_other_than_row_groups: the new footer is the parent's shallow copy with only row_groups assigned (schema,
         created_by, key_value_metadata -> selfmade, _kvm, pandas_metadata, categories are the parent's)
+  handles.derived_state_has_no_row_group_dependent_cache[int|slice].<attr>   for every lazily filled attribute that depends on the
+        row groups (found by a data + control taint analysis of class ParquetFile: stored from `.row_groups` / `f(self)` / under a loop
+        or test over them; minus the declared state and what _set_attrs re-derives - today _statistics and _categories): pf[item]
+        does not hold the PARENT's value (absent, None, or recomputed on the new handle), whatever dict was handed to __setstate__
+        (explicit keys, dict(self.__dict__), self.__dict__.copy(), {**self.__dict__, ...} are modelled)
+  handles.derived_state_frame[int|slice]       every explicit key handed to __setstate__ is declared state, the copied footer,
+        re-derived by _set_attrs, or the parent's own value of that attribute
+  handles.derived_statistics_describe_own_row_groups[int|slice]   the real `statistics` property run on the handle __getitem__ built,
+        with the parent's cache possibly filled, returns statistics(<new handle>) on every path
+  statistics.cache_is_only_set_from_own_row_groups (ast) / statistics.property_returns_cache_or_own_statistics
+  statistics.cache_dropped_when_row_groups_change[<method>]   (C04 selection only) a method that calls self._set_attrs() on an existing
+        handle (remove_row_groups, write_row_groups) resets the cache - refuted on this tree = known finding C04-P-statistics-cache-stale-...
   handles.state_roundtrip_keeps_dtype_answers.<key>   the same per key for __setstate__(__getstate__()) (copy / pickle)
   handles.dtype_table_not_rederived_when_inherited   the real _dtypes with _base_dtype set assigns neither _base_dtype nor tz
   handles.state_roundtrip_shares_open_fn_footer  object.__new__(ParquetFile).__setstate__(pf.__getstate__()) (what copy.copy and
@@ -715,6 +727,24 @@ class EngH(Eng6):
     def e_Dict(self, e, p):
         if not e.keys:
             return [(p, opaque_not_none(p, ("dict", next(self.counter))))]
+        if any(k is None for k in e.keys) and all(k is None or (isinstance(k, ast.Constant) and isinstance(k.value, str)) for k in e.keys):
+            out = []
+            for q, vs in self.ev_list(e.values, p):
+                sd = None
+                for k, v in zip(e.keys, vs):
+                    if k is None:
+                        if sd is None and isinstance(v, Custom) and isinstance(v.h, (HPFDict, StateDict)):
+                            sd = StateDict(v.h.oid) if isinstance(v.h, HPFDict) else StateDict(v.h.base, v.h.over)
+                        elif sd is not None and isinstance(v, Custom) and isinstance(v.h, DictLit):
+                            sd.over.update(v.h.d)
+                        else:
+                            raise Unsupported("dict display with ** of an unmodelled mapping")
+                    else:
+                        if sd is None:
+                            raise Unsupported("dict display: keys before the ** mapping")
+                        sd.over[k.value] = v
+                out.append((q, Custom(sd)))
+            return out
         return super().e_Dict(e, p)
 
     def e_Call(self, e, p):
@@ -757,13 +787,93 @@ class EngH(Eng6):
         return super().equal(a, b, p, node)
 
 
+class StateDict:
+    """dict(pf.__dict__) / pf.__dict__.copy() / {**pf.__dict__, ...}: EVERY attribute of handle `base` (whatever they are) with
+    its current value, plus the explicit overrides"""
+    tracked = True            # reaches open / a file object: must not flow into unknown calls
+
+    def __init__(self, base, over=None):
+        self.base, self.over = base, dict(over or {})
+
+    def is_none(self, eng, p):
+        return z3.BoolVal(False)
+
+    def truth(self, eng, p):
+        return z3.BoolVal(True)
+
+    def setitem(self, eng, p, i, v, node):
+        if not isinstance(i, Str):
+            raise Unsupported("state dict with a computed key")
+        self.over[i.s] = v          # (the object is created per path: handlers return a fresh one)
+
+    def getitem(self, eng, p, i, node):
+        if not isinstance(i, Str):
+            raise Unsupported("state dict with a computed key")
+        return self.over[i.s] if i.s in self.over else HPF(self.base).attr(eng, p, i.s)
+
+    def call_method(self, eng, p, name, args, kw, node):
+        if name == "copy" and not args:
+            return [(p, Custom(StateDict(self.base, self.over)))]
+        if name == "update" and len(args) == 1 and isinstance(args[0], Custom) and isinstance(args[0].h, DictLit):
+            self.over.update(args[0].h.d)
+            return [(p, NONE)]
+        if name == "pop" and args and isinstance(args[0], Str):
+            self.over[args[0].s] = ABSENT
+            return [(p, Opaque(("popped", args[0].s)))]
+        raise Unsupported("state dict." + name)
+
+
+ABSENT = Opaque("<<attribute removed from the state>>")
+
+
+class HPFDict:
+    """pf.__dict__"""
+    tracked = True
+
+    def __init__(self, oid):
+        self.oid = oid
+
+    def call_method(self, eng, p, name, args, kw, node):
+        A = p.ghost["attrs"]
+        if name == "copy" and not args:
+            return [(p, Custom(StateDict(self.oid)))]
+        if name == "update" and len(args) == 1 and isinstance(args[0], Custom) and isinstance(args[0].h, DictLit):
+            for k, v in args[0].h.d.items():
+                A[(self.oid, k)] = v
+                p.ghost["writes"].append((self.oid, k))
+            return [(p, NONE)]
+        if name == "update" and len(args) == 1 and isinstance(args[0], Custom) and isinstance(args[0].h, StateDict):
+            sd = args[0].h
+            if sd.base != self.oid:
+                for (o2, k), v in list(A.items()):
+                    if o2 == sd.base and k != "__inherits__":
+                        A[(self.oid, k)] = v
+                A[(self.oid, "__inherits__")] = A.get((sd.base, "__inherits__"), sd.base) if (sd.base, "__inherits__") in A else sd.base
+                p.ghost["writes"].append((self.oid, "<every attribute of " + sd.base + ">"))
+            for k, v in sd.over.items():
+                A[(self.oid, k)] = v
+                p.ghost["writes"].append((self.oid, k))
+            return [(p, NONE)]
+        raise Unsupported("__dict__." + name)
+
+    def getitem(self, eng, p, i, node):
+        if isinstance(i, Str):
+            return HPF(self.oid).attr(eng, p, i.s)
+        raise Unsupported("__dict__[computed key]")
+
+
 class HPF(PF):
     """handle whose `open` is modelled; every method used opaquely is recorded (frame.helpers_do_no_file_io)"""
 
     def attr(self, eng, p, name):
         A = p.ghost["attrs"]
-        if (self.oid, name) not in A and name != "__dict__" and ("ParquetFile." + name) in eng.funcs:
+        if name == "__dict__":
+            return Custom(HPFDict(self.oid))
+        if (self.oid, name) not in A and ("ParquetFile." + name) in eng.funcs:
             p.ghost["opaque_self"] = p.ghost.get("opaque_self", []) + [name]
+        if (self.oid, name) not in A and (self.oid, "__inherits__") in A and ("ParquetFile." + name) not in eng.funcs:
+            # the whole __dict__ of another handle was copied in: every attribute not assigned since is THAT handle's value
+            return HPF(A[(self.oid, "__inherits__")]).attr(eng, p, name)
         return super().attr(eng, p, name)
 
     def setattr(self, eng, p, name, v):
@@ -868,8 +978,36 @@ def h_min(eng, p, args, kw, node):
     return [(p, PyI(eng.fresh_int("min")))]
 
 
+def h_dict(eng, p, args, kw, node):
+    if len(args) == 1 and not kw and isinstance(args[0], Custom) and isinstance(args[0].h, HPFDict):
+        return [(p, Custom(StateDict(args[0].h.oid)))]
+    if len(args) == 1 and not kw and isinstance(args[0], Custom) and isinstance(args[0].h, StateDict):
+        return [(p, Custom(StateDict(args[0].h.base, args[0].h.over)))]
+    if len(args) == 1 and not kw and isinstance(args[0], Custom) and isinstance(args[0].h, DictLit):
+        return [(p, Custom(DictLit(dict(args[0].h.d))))]
+    eng.check_untracked(args, kw, "dict", node)
+    return [(p, opaque_not_none(p, ("dict", next(eng.counter))))]
+
+
 def h_hasattr(eng, p, args, kw, node):
     o, nm = args[0], args[1]
+    if isinstance(o, Custom) and isinstance(o.h, PF) and isinstance(nm, Str):
+        A = p.ghost["attrs"]
+        oid = o.h.oid
+        while True:
+            if (oid, nm.s) in A:
+                return [(p, PyB(A[(oid, nm.s)] is not ABSENT))]
+            if (oid, "__inherits__") not in A:
+                break
+            oid = A[(oid, "__inherits__")]
+        if nm.s in getattr(eng, "class_attrs", ()) or ("ParquetFile." + nm.s) in eng.funcs:
+            return [(p, PyB(True))]
+        if oid in p.ghost.get("new_handles", []):
+            return [(p, PyB(False))]             # object.__new__(ParquetFile) has no instance attributes
+        key = ("hasattr", oid, nm.s)
+        if key not in p.opq:
+            p.opq[key] = PyB(eng.fresh("hasattr", z3.BoolSort()))
+        return [(p, p.opq[key])]
     if isinstance(o, Custom) and isinstance(o.h, FileObj):
         return [(p, PyB(isinstance(nm, Str) and nm.s in ("read", "seek", "tell", "close", "closed", "readinto")))]
     if isinstance(o, Opaque):
@@ -979,7 +1117,7 @@ def m_to_pandas_cut(eng, q, pf, args, kw, node):
     return [(q, opaque_not_none(q, ("frame", next(eng.counter))))]
 
 
-HANDLERS = {"sum": h_sum, "len": h_len, "zip": h_zip, "list": h_list, "min": h_min, "hasattr": h_hasattr,
+HANDLERS = {"sum": h_sum, "len": h_len, "zip": h_zip, "list": h_list, "min": h_min, "hasattr": h_hasattr, "dict": h_dict,
             "filter_row_groups": h_filter_row_groups}
 
 
@@ -1017,6 +1155,7 @@ def pre_ok(ctx, p, label):
 def mk_engine(funcs, tag, pf_methods=None, handlers=None, frozen=False):
     eng = EngH(funcs=funcs, handlers=dict(HANDLERS, **(handlers or {})), opaque_calls=True, pf_methods=pf_methods or {}, entry_tag=tag)
     eng.frozen_handle = frozen        # read entry points: the handle's open / fn must not be re-bound
+    eng.class_attrs = class_level_attrs(SRC["tree"]) if SRC["tree"] is not None else set()
     return eng
 
 
@@ -1263,6 +1402,167 @@ def h_copy(eng, q, args, kw, node):
     return [(q, Custom(FMD(oid, o.h.root, copy_of=o.h.oid)))]
 
 
+# =================================================================================================
+# which attributes of a handle depend on its row groups?  (data + control taint over the real source of class ParquetFile)
+# =================================================================================================
+def _class_node(tree, name="ParquetFile"):
+    return next((n for n in tree.body if isinstance(n, ast.ClassDef) and n.name == name), None)
+
+
+def class_level_attrs(tree):
+    c = _class_node(tree)
+    out = set()
+    for n in (c.body if c is not None else []):
+        if isinstance(n, ast.Assign):
+            out |= {t.id for t in n.targets if isinstance(t, ast.Name)}
+    return out
+
+
+def rg_dependent_attrs(tree):
+    """{attribute: [methods that store it]} for every `self.X = v` whose value (data flow) or whose execution (enclosing loop /
+    if: control flow) depends on `<anything>.row_groups`, on a call that is handed the whole handle (`f(self)`), on a property /
+    attribute of self that is itself row-group dependent.  Over-approximation; fixpoint over the methods of the class."""
+    c = _class_node(tree)
+    if c is None:
+        return {}
+    methods = [n for n in c.body if isinstance(n, ast.FunctionDef)]
+    is_prop = {m.name for m in methods if any(isinstance(d, ast.Name) and d.id == "property" for d in m.decorator_list)}
+    dep, props = {}, set()
+
+    def run(m):
+        T = set()
+
+        def tainted(e):
+            for n in ast.walk(e):
+                if isinstance(n, ast.Attribute) and n.attr == "row_groups":
+                    return True
+                if isinstance(n, ast.Attribute) and isinstance(n.value, ast.Name) and n.value.id == "self" and (n.attr in dep or n.attr in props):
+                    return True
+                if isinstance(n, ast.Call) and any(isinstance(a, ast.Name) and a.id == "self" for a in n.args):
+                    return True
+                if isinstance(n, ast.Name) and isinstance(n.ctx, ast.Load) and n.id in T:
+                    return True
+            return False
+
+        def taint_target(t):
+            if isinstance(t, ast.Name):
+                T.add(t.id)
+            elif isinstance(t, (ast.Tuple, ast.List)):
+                for x in t.elts:
+                    taint_target(x)
+            elif isinstance(t, ast.Attribute) and isinstance(t.value, ast.Name) and t.value.id == "self":
+                dep.setdefault(t.attr, set()).add(m.name)
+            elif isinstance(t, (ast.Subscript, ast.Attribute)):
+                b = t.value
+                while isinstance(b, (ast.Subscript, ast.Attribute)):
+                    b = b.value
+                if isinstance(b, ast.Name) and b.id != "self":
+                    T.add(b.id)
+
+        def block(stmts, ctl):
+            for st in stmts:
+                if isinstance(st, ast.Assign):
+                    if ctl or tainted(st.value):
+                        for t in st.targets:
+                            taint_target(t)
+                elif isinstance(st, (ast.AugAssign, ast.AnnAssign)):
+                    if st.value is not None and (ctl or tainted(st.value)):
+                        taint_target(st.target)
+                elif isinstance(st, (ast.For, ast.AsyncFor)):
+                    t = ctl or tainted(st.iter)
+                    if t:
+                        taint_target(st.target)
+                    block(st.body, t)
+                    block(st.orelse, t)
+                elif isinstance(st, (ast.If, ast.While)):
+                    t = ctl or tainted(st.test)
+                    block(st.body, t)
+                    block(st.orelse, t)
+                elif isinstance(st, (ast.With, ast.AsyncWith)):
+                    block(st.body, ctl)
+                elif isinstance(st, ast.Try):
+                    block(st.body, ctl)
+                    for h in st.handlers:
+                        block(h.body, ctl)
+                    block(st.orelse, ctl)
+                    block(st.finalbody, ctl)
+                elif isinstance(st, ast.Expr) and isinstance(st.value, ast.Call) and isinstance(st.value.func, ast.Attribute) and \
+                        st.value.func.attr in ("append", "extend", "insert", "update", "add", "setdefault", "pop", "remove", "sort", "clear"):
+                    if ctl or any(tainted(a) for a in st.value.args):           # x.append(tainted) / x.update(...)
+                        taint_target(st.value.func.value if isinstance(st.value.func.value, (ast.Name, ast.Subscript, ast.Attribute)) else st.value.func)
+                elif isinstance(st, ast.Return) and st.value is not None and m.name in is_prop:
+                    if ctl or tainted(st.value):
+                        props.add(m.name)
+        for _ in range(3):
+            block(m.body, False)
+    for _ in range(4):
+        n0 = (sum(len(v) for v in dep.values()), len(props))
+        for m in methods:
+            run(m)
+        if (sum(len(v) for v in dep.values()), len(props)) == n0:
+            break
+    return {k: sorted(v) for k, v in dep.items()}
+
+
+def recomputed_by_set_attrs(funcs):
+    """attributes assigned unconditionally (top level) by _set_attrs and by the self-methods it calls at its top level"""
+    out, seen = set(), set()
+
+    def visit(name):
+        f = funcs.get("ParquetFile." + name)
+        if f is None or name in seen:
+            return
+        seen.add(name)
+        for st in f.tree.body:
+            if isinstance(st, ast.Assign):
+                for t in st.targets:
+                    for x in (t.elts if isinstance(t, (ast.Tuple, ast.List)) else [t]):
+                        if isinstance(x, ast.Attribute) and isinstance(x.value, ast.Name) and x.value.id == "self":
+                            out.add(x.attr)
+            elif isinstance(st, ast.Expr) and isinstance(st.value, ast.Call) and isinstance(st.value.func, ast.Attribute) and \
+                    isinstance(st.value.func.value, ast.Name) and st.value.func.value.id == "self":
+                visit(st.value.func.attr)
+    visit("_set_attrs")
+    return out
+
+
+def row_group_caches(funcs, tree):
+    """row-group dependent attributes that are neither part of the handle's declared (dataset-level) state nor re-derived by
+    _set_attrs: the lazily filled caches a derived handle must not take over"""
+    dep = rg_dependent_attrs(tree)
+    primary = set(handle_state_keys(funcs)) | {"fmd"}
+    rec = recomputed_by_set_attrs(funcs)
+    return {k: v for k, v in dep.items() if k not in primary and k not in rec}, dep, rec
+
+
+SRC = {"tree": None}            # ast of api.py of this run (set by check)
+
+
+def caches_of(funcs):
+    if SRC["tree"] is None:
+        return {}
+    return row_group_caches(funcs, SRC["tree"])[0]
+
+
+def resolve_attr(A, oid, name):
+    """value of an attribute of a handle in the ghost heap (following a copied-in __dict__), None when it was never set"""
+    while True:
+        if (oid, name) in A:
+            return A[(oid, name)]
+        if (oid, "__inherits__") not in A:
+            return None
+        oid = A[(oid, "__inherits__")]
+
+
+def h_statistics_fn(eng, q, args, kw, node):
+    """api.statistics(obj) (under contract in c04_sorted): here only WHOSE row groups it is computed from matters"""
+    o = args[0] if args else None
+    if isinstance(o, Custom) and isinstance(o.h, PF):
+        return [(q, opaque_not_none(q, ("statistics_of", o.h.oid)))]
+    eng.check_untracked(args, kw, "statistics", node)
+    return [(q, Opaque(("statistics_of_value", next(eng.counter))))]
+
+
 CACHES = ("_statistics",)      # per-handle caches that must NOT be inherited (the parent's statistics are not the slice's)
 
 
@@ -1326,12 +1626,18 @@ def preset_parent_state(p, funcs):
     for nm in handle_state_keys(funcs):
         if ("pf0", nm) not in p.ghost["attrs"]:
             p.ghost["attrs"][("pf0", nm)] = opaque_not_none(p, ("pf0", nm)) if nm == "_base_dtype" else Opaque(("pf0", nm))
+    for nm in caches_of(funcs):          # lazily filled caches of the parent: filled or not (unknown) when the slice is taken
+        if ("pf0", nm) not in p.ghost["attrs"]:
+            p.ghost["attrs"][("pf0", nm)] = Opaque(("pf0", nm))
 
 
 def m_setstate_recording(eng, q, pf, args, kw, node):
     st = args[0] if args else kw.get("state")
     if isinstance(st, Custom) and isinstance(st.h, DictLit):
         q.ghost["state_dict:" + pf.oid] = dict(st.h.d)
+    elif isinstance(st, Custom) and isinstance(st.h, StateDict):
+        q.ghost["state_dict:" + pf.oid] = dict(st.h.over)
+        q.ghost["state_all_of:" + pf.oid] = st.h.base
     return inline_method("__setstate__")(eng, q, pf, args, kw, node)
 
 
@@ -1370,7 +1676,7 @@ def getitem_paths(ctx, funcs, kind, mode="path"):
         item = Custom(so)
         want = ("slice", L0, so)
     preset_parent_state(p, funcs)
-    eng = mk_engine(funcs, f"__getitem__[{kind}]", handlers={"object.__new__": h_new, "copy.copy": h_copy},
+    eng = mk_engine(funcs, f"__getitem__[{kind}]", handlers={"object.__new__": h_new, "copy.copy": h_copy, "statistics": h_statistics_fn},
                     pf_methods={"__setstate__": m_setstate_recording, "_set_attrs": inline_method("_set_attrs"),
                                 "count": inline_method("count"), "_read_partitions": lambda e, q, pf, a, k, n: [(q, NONE)],
                                 "_dtypes": lambda e, q, pf, a, k, n: [(q, Opaque("dtypes"))]})
@@ -1389,6 +1695,146 @@ def selection_terms(q, want, L0):
         return None, None
     q.pc += [S(sel.h.L, 0) == 0, s_mono(sel.h.L, z3.IntVal(0), sel.h.n)]
     return sel.h.n, S(sel.h.L, sel.h.n)
+
+
+def derived_cache_frame(res, eng, funcs, q, oid, tag):
+    """whole view of the state a derived handle starts from: which keys were handed to __setstate__, from where; no row-group
+    dependent cache of the parent survives into it; its statistics are computed from its OWN row groups"""
+    A = q.ghost["attrs"]
+    caches = caches_of(funcs)
+    sd = q.ghost.get("state_dict:" + oid)
+    all_of = q.ghost.get("state_all_of:" + oid)
+    how = f"the whole __dict__ of the parent ({all_of}) was handed to __setstate__" if all_of else \
+        ("keys handed to __setstate__: " + ", ".join(sorted(sd)) if sd is not None else "state not seen by the script")
+    if not caches:
+        res.add("handles.derived_state_has_no_row_group_dependent_cache" + tag, UNKNOWN, None, 0.0, "ast",
+                "no row-group dependent cache attribute was found in the source of ParquetFile: the analysis does not fit this source")
+    for X, where in sorted(caches.items()):
+        v, v0 = resolve_attr(A, oid, X), A.get(("pf0", X))
+        ok = v is None or v is ABSENT or isinstance(v, NoneV) or not same_value(v0, v)
+        res.add(f"handles.derived_state_has_no_row_group_dependent_cache{tag}.{X}", PROVED if ok else REFUTED,
+                None if ok else {"attribute": X, "filled_lazily_by": where, "new_handle_holds": "the PARENT's " + describe(v0), "state": how,
+                                 "note": "computed from the parent's row groups, not re-derived by _set_attrs: the part answers with the whole"},
+                0.0, "trace", f"{X} (filled lazily from self.row_groups by {', '.join(where)}; not re-derived by _set_attrs) is absent from / None in "
+                "the state of pf[item], or was recomputed on the new handle: never the parent's value")
+    # every OTHER explicit key: declared state / footer / re-derived anyway / the parent's own value
+    if sd is not None:
+        primary, rec = set(handle_state_keys(funcs)) | {"fmd"}, recomputed_by_set_attrs(funcs)
+        odd = sorted(k for k, v in sd.items() if k not in primary and k not in rec and k not in caches and v is not ABSENT and
+                     not same_value(A.get(("pf0", k)), v))
+        res.add("handles.derived_state_frame" + tag, PROVED if not odd else REFUTED, {"keys_with_foreign_values": odd, "state": how} if odd else None, 0.0, "trace",
+                "every key handed to __setstate__ is declared state (the parent's value: derived_inherits_parent_answers), the copied footer, "
+                "re-derived by _set_attrs anyway, or the parent's own value of that attribute; " + how)
+    # the property itself, on the handle __getitem__ built, with the parent's cache possibly filled
+    if "ParquetFile.statistics" in eng.funcs:
+        for r in eng.run("ParquetFile.statistics", _resume(q), [Custom(HPF(oid))]):
+            if r.ctl[0] != "ret":
+                continue
+            v = r.ctl[1]
+            own = isinstance(v, Opaque) and v.tag == ("statistics_of", oid)
+            if not own and solve(list(r.pc), 2000)[0] != REFUTED:
+                continue
+            res.add("handles.derived_statistics_describe_own_row_groups" + tag, PROVED if own else REFUTED,
+                    None if own else {"pf[item].statistics_returns": describe(v), "state": how,
+                                      "z3_model": str(solve(list(r.pc), 2000)[1])[:160]}, 0.0, "trace",
+                    "pf[item].statistics is statistics(<the new handle>): min / max / null_count lists of ITS row groups, also when the parent's "
+                    "statistics were looked at before the slice was taken")
+
+
+def _resume(q):
+    r = q.fork()
+    r.ctl = None
+    return r
+
+
+def run_statistics_cache(ctx, funcs, timeout, in_place):
+    """the cache behind the `statistics` property (C04: what users are shown decodes to the chunks' values)"""
+    res = Results()
+    tree = SRC["tree"]
+    c = _class_node(tree)
+    # (ast) every store to ._statistics, in any form, is None or statistics(self) on self
+    bad, n = [], 0
+    for node in ast.walk(tree):
+        if isinstance(node, ast.Assign):
+            for t in node.targets:
+                if isinstance(t, ast.Attribute) and t.attr == "_statistics":
+                    n += 1
+                    v = node.value
+                    own = isinstance(t.value, ast.Name) and t.value.id == "self" and (
+                        (isinstance(v, ast.Constant) and v.value is None) or
+                        (isinstance(v, ast.Call) and isinstance(v.func, ast.Name) and v.func.id == "statistics" and len(v.args) == 1 and
+                         isinstance(v.args[0], ast.Name) and v.args[0].id == "self" and not v.keywords))
+                    if not own:
+                        bad.append(f"L{node.lineno}: {ast.unparse(node)[:80]}")
+        elif isinstance(node, ast.Dict):
+            for k, v in zip(node.keys, node.values):
+                if isinstance(k, ast.Constant) and k.value == "_statistics" and not (isinstance(v, ast.Constant) and v.value is None):
+                    bad.append(f"L{node.lineno}: state dict entry '_statistics': {ast.unparse(v)[:60]}")
+        elif isinstance(node, ast.Call) and isinstance(node.func, ast.Name) and node.func.id == "setattr" and len(node.args) == 3 and \
+                isinstance(node.args[1], ast.Constant) and node.args[1].value == "_statistics":
+            bad.append(f"L{node.lineno}: {ast.unparse(node)[:80]}")
+    res.add("statistics.cache_is_only_set_from_own_row_groups", PROVED if n and not bad else REFUTED if bad else UNKNOWN, {"stores": bad} if bad else None, 0.0, "ast",
+            f"every assignment to ._statistics in api.py ({n}) is `self._statistics = None` or `self._statistics = statistics(self)`")
+    # the property on an arbitrary handle: the cache when filled, else statistics(self), which it stores
+    p, L0, N0, f0 = start_path("path")
+    preset_parent_state(p, funcs)
+    eng = mk_engine(funcs, "statistics", handlers={"statistics": h_statistics_fn})
+    n_ret = 0
+    for r in eng.run("ParquetFile.statistics", p, [Custom(HPF("pf0"))]):
+        if r.ctl[0] != "ret":
+            continue
+        n_ret += 1
+        v = r.ctl[1]
+        own = isinstance(v, Opaque) and v.tag == ("statistics_of", "pf0")
+        cached = same_value(Opaque(("pf0", "_statistics")), v)
+        stored = resolve_attr(r.ghost["attrs"], "pf0", "_statistics")
+        ok = (own and same_value(stored, v)) or cached
+        res.add("statistics.property_returns_cache_or_own_statistics", PROVED if ok else REFUTED, None if ok else {"returns": describe(v), "cache_after": describe(stored)},
+                0.0, "trace", "pf.statistics is the handle's cache when that is filled, else statistics(pf) - which is stored as the cache")
+    if n_ret:
+        ctx.vacuity["covers"] += n_ret
+    else:
+        ctx.engine_error("statistics property: no returning path")
+    if "_statistics" in caches_of(funcs):
+        ctx.vacuity["must_fail_sat"] += 1       # the analysis finds the cache: the frame obligations on derived handles are not vacuous
+    else:
+        res.add("statistics.cache_found_in_source", UNKNOWN, None, 0.0, "ast", "_statistics is not recognised as a row-group dependent cache in this source")
+    if in_place:
+        # in-place edits: every method that re-derives the row-group dependent attributes (calls self._set_attrs() on an existing handle)
+        # must also drop the cache - itself, or _set_attrs / a self-method it calls
+        meths = {m.name: m for m in c.body if isinstance(m, ast.FunctionDef)}
+
+        def resets(name, seen):
+            m = meths.get(name)
+            if m is None or name in seen:
+                return False
+            seen.add(name)
+            for node in ast.walk(m):
+                if isinstance(node, ast.Assign) and isinstance(node.value, ast.Constant) and node.value.value is None and \
+                        any(isinstance(t, ast.Attribute) and t.attr == "_statistics" and isinstance(t.value, ast.Name) and t.value.id == "self" for t in node.targets):
+                    return True
+                if isinstance(node, ast.Call) and isinstance(node.func, ast.Attribute) and isinstance(node.func.value, ast.Name) and \
+                        node.func.value.id == "self" and resets(node.func.attr, seen):
+                    return True
+            return False
+        for name, m in meths.items():
+            if name in CONSTRUCTORS:
+                continue
+            calls = any(isinstance(x, ast.Call) and isinstance(x.func, ast.Attribute) and x.func.attr == "_set_attrs" and
+                        isinstance(x.func.value, ast.Name) and x.func.value.id == "self" for x in ast.walk(m))
+            if calls:
+                ok = resets(name, set())
+                res.add(f"statistics.cache_dropped_when_row_groups_change[{name}]", PROVED if ok else REFUTED,
+                        None if ok else {"method": name, "note": "re-derives row_groups / cats / dtypes through self._set_attrs() on the SAME handle, but neither it nor "
+                                                                 "_set_attrs resets self._statistics: pf.statistics read before and after shows the old row groups"}, 0.0, "ast",
+                        f"{name} changes the handle's row groups in place (it calls self._set_attrs()): the statistics cache is reset on the way")
+    return res
+
+
+import re as _re
+C04_FAMILY = _re.compile(r"^(statistics\.|handles\.derived_state_|handles\.derived_statistics_|handles\.derived\[.*out_of_reach|statistics\.cache.*out_of_reach)")
+CONSTRUCTORS = ("__init__", "_parse_header", "__setstate__", "_set_attrs", "__getitem__")
+FID_STALE = "C04-P-statistics-cache-stale-after-in-place-edit"
 
 
 def run_derived(ctx, funcs, timeout, kind):
@@ -1428,6 +1874,7 @@ def run_derived(ctx, funcs, timeout, kind):
         others = sorted({w[1] for w in q.ghost["writes"] if copied and w[0] == f.h.oid and w[1] != "row_groups"})
         diff = sorted(k[1] for k in A if copied and k[0] == "fmd0" and k[1] != "row_groups" and not same_value(A[k], A.get((f.h.oid, k[1]))))
         okf = copied and not others and not diff
+        derived_cache_frame(res, eng, funcs, q, oid, tag)
         res.add("handles.derived_inherits_parent_answers" + tag + ".footer_fields_other_than_row_groups", PROVED if okf else REFUTED,
                 None if okf else {"is_copy_of_parent_footer": copied, "assigned_on_copy": others, "differing": diff}, 0.0, "trace",
                 "the new footer is a shallow copy of the parent's on which only row_groups is assigned: schema, created_by, "
@@ -1672,13 +2119,16 @@ def run_helpers(ctx, funcs, used):
 
 
 # =================================================================================================
-UNDER_CONTRACT_API = ("_dtypes", "__init__", "_parse_header", "to_pandas", "read_row_group_file", "iter_row_groups", "head", "count", "_read_partitions",
+UNDER_CONTRACT_API = ("statistics", "_dtypes", "__init__", "_parse_header", "to_pandas", "read_row_group_file", "iter_row_groups", "head", "count", "_read_partitions",
                       "__getitem__", "__getstate__", "__setstate__", "_set_attrs", "info", "__len__")
 UNDER_CONTRACT_CORE = ("read_row_group", "read_row_group_arrays", "read_col")
 
 
-def check(ctx, timeout):
-    api, _, _ = parse_module("fastparquet/api.py")
+def check(ctx, timeout, select=None):
+    """select: None = everything reported under C06 / C17; "C04" = the statistics-cache family only (derived-handle state frame,
+    the property on derived handles, the cache's stores, in-place edits)"""
+    api, tree, _ = parse_module("fastparquet/api.py")
+    SRC["tree"] = tree
     core, _, _ = parse_module("fastparquet/core.py")
     funcs = {k: v for k, v in core.items() if k in UNDER_CONTRACT_CORE}
     clash = set(funcs) & set(api)
@@ -1710,6 +2160,19 @@ def check(ctx, timeout):
             r = Results()
             r.add(label + ".out_of_reach", UNKNOWN, None, 0.0, "engine", f"proof script does not fit this source: {type(ex).__name__}: {ex}")
             out.append(r)
+    if select == "C04":
+        for kind in ("int", "slice"):
+            guarded(f"handles.derived[{kind}]", run_derived, ctx, funcs, timeout, kind)
+        guarded("statistics.cache", run_statistics_cache, ctx, funcs, timeout, True)
+        keep = []
+        for r in out:
+            r2 = Results()
+            for nm in r.order:
+                if C04_FAMILY.search(nm):
+                    r2.d[nm] = r.d[nm]
+                    r2.order.append(nm)
+            keep.append(r2)
+        return keep
     for variant in ("default open_with", "fs given"):
         guarded(f"reads[__init__,file-like,{variant}]", run_init, ctx, funcs, timeout, variant, used)
     for mode in ("file-like", "path"):
@@ -1723,6 +2186,7 @@ def check(ctx, timeout):
         guarded(f"handles.derived[{kind}]", run_derived, ctx, funcs, timeout, kind)
     guarded("handles.state_roundtrip", run_state_roundtrip, ctx, funcs, timeout)
     guarded("handles.dtypes", run_dtypes_uses_inherited_table, ctx, funcs, timeout)
+    guarded("statistics.cache", run_statistics_cache, ctx, funcs, timeout, False)
     for kind in ("root", "int", "slice"):
         guarded(f"count.derived[{kind}]", run_counts, ctx, funcs, timeout, kind)
     guarded("frame.helpers", run_helpers, ctx, funcs, used)
